@@ -36,7 +36,8 @@ pub fn get_num_cells(resolution: i32) -> u64 {
     }
 
     // For lower resolutions, exact calculation works fine
-    60 * (4_u64.pow((resolution - 1) as u32))
+    // (beyond the supported resolutions the count no longer fits in 64 bits: saturate)
+    60_u64.saturating_mul(4_u64.saturating_pow((resolution - 1) as u32))
 }
 
 /// Returns the number of children between two resolutions.
